@@ -91,10 +91,7 @@ def armPhase (o : Oracle σ) (rec : Nat → St σ → Res (St σ)) (n : Nat) (al
     else armTwo rec n s (o.qs64 s.os n)
   | .rho =>
     if bits n > 64 then .inl (.panic "assert!(n.bits() <= 64)")
-    else
-    match (o.rho s.os n).1 with
-    | some (as, b) => .inl (splitManyR rec { s with os := (o.rho s.os n).2 } as b)
-    | none => .inr { s with os := (o.rho s.os n).2 }
+    else armMany rec n s (o.rho s.os n)
   | .squfof =>
     if bits n > 64 then .inl (.panic "assert!(n.bits() <= 64)")
     else armTwo rec n s (o.squfof s.os n)
